@@ -56,9 +56,16 @@ func (s LSt) String() string {
 type lout struct {
 	panic  bool
 	st     LSt
-	origin string // for panicking outcomes: where the panic was raised (relative stack)
+	origin lorigin // for panicking outcomes: where the panic was raised (relative stack)
 	rec    bool   // a deferred closure called recover() while panicking
 }
+
+type lorigin struct {
+	stack string
+	pos   token.Pos
+}
+
+func (o lorigin) via(fn string) lorigin { return lorigin{canonStack(fn, o.stack), o.pos} }
 
 type lfinding struct {
 	Kind  string
@@ -214,9 +221,12 @@ func (a *LTA) drive(name string, fn *ssa.Function, s LSt, live map[LSt]bool, pan
 	for _, o := range sortedOuts(sum.outs) {
 		if o.panic {
 			if panicsEscape {
-				a.record(name, lfinding{Kind: "panic-escapes", Stack: o.origin, State: o.st.String()})
+				a.record(name, lfinding{Kind: "panic-escapes", Stack: o.origin.stack, Pos: o.origin.pos, State: o.st.String()})
 			}
 			continue
+		}
+		if name == "spawn" && (o.st.Inc == incNone || o.st.Inc == incNew || o.st.Inc == incInited) {
+			a.record(name, lfinding{Kind: "spawn-returns-before-Started", Stack: fn.Name(), State: o.st.String()})
 		}
 		if o.st.Dead && o.st.Inc != incStopped && o.st.Inc != incNone {
 			a.record(name, lfinding{Kind: "terminated-without-Stopped", Stack: fn.Name(), State: o.st.String()})
@@ -386,8 +396,8 @@ func (a *LTA) analyze(fn *ssa.Function, args map[int]labs, st LSt, deferredPanic
 	}
 
 	// runDefers runs the deferred calls registered in fr (LIFO) starting at idx.
-	var runDefers func(fr *lframe, st LSt, panicking bool, origin string, idx int, k func(st LSt, stillPanicking bool, origin string))
-	runDefers = func(fr *lframe, st LSt, panicking bool, origin string, idx int, k func(LSt, bool, string)) {
+	var runDefers func(fr *lframe, st LSt, panicking bool, origin lorigin, idx int, k func(st LSt, stillPanicking bool, origin lorigin))
+	runDefers = func(fr *lframe, st LSt, panicking bool, origin lorigin, idx int, k func(LSt, bool, lorigin)) {
 		if idx < 0 {
 			k(st, panicking, origin)
 			return
@@ -400,7 +410,7 @@ func (a *LTA) analyze(fn *ssa.Function, args map[int]labs, st LSt, deferredPanic
 			absorb(cs)
 			for _, o := range sortedOuts(cs.outs) {
 				if o.panic {
-					runDefers(fr, o.st, true, canonStack(self, o.origin), idx-1, k)
+					runDefers(fr, o.st, true, o.origin.via(self), idx-1, k)
 				} else {
 					runDefers(fr, o.st, panicking && !o.rec, origin, idx-1, k)
 				}
@@ -411,7 +421,7 @@ func (a *LTA) analyze(fn *ssa.Function, args map[int]labs, st LSt, deferredPanic
 				absorb(cs)
 				for _, o := range sortedOuts(cs.outs) {
 					if o.panic {
-						runDefers(fr, o.st, true, canonStack(self, o.origin), idx-1, k)
+						runDefers(fr, o.st, true, o.origin.via(self), idx-1, k)
 					} else {
 						runDefers(fr, o.st, panicking, origin, idx-1, k)
 					}
@@ -421,7 +431,7 @@ func (a *LTA) analyze(fn *ssa.Function, args map[int]labs, st LSt, deferredPanic
 			if isCancelFunc(d.Call.Value.Type()) || isFuncValue(d.Call.Value) {
 				if fr.env[d.Call.Value] == aNil {
 					report("nil-func-call", "defer "+a.w.pathOf(d.Call.Value), st, d.Pos())
-					runDefers(fr, st, true, self+":defer-nil-call", idx-1, k)
+					runDefers(fr, st, true, lorigin{self + ":defer-nil-call", d.Pos()}, idx-1, k)
 					return
 				}
 				if isCancelFunc(d.Call.Value.Type()) {
@@ -431,8 +441,8 @@ func (a *LTA) analyze(fn *ssa.Function, args map[int]labs, st LSt, deferredPanic
 			runDefers(fr, st, panicking, origin, idx-1, k)
 		}
 	}
-	doPanic := func(fr *lframe, st LSt, origin string) {
-		runDefers(fr, st, true, origin, len(fr.defers)-1, func(st2 LSt, stillP bool, org string) {
+	doPanic := func(fr *lframe, st LSt, origin lorigin) {
+		runDefers(fr, st, true, origin, len(fr.defers)-1, func(st2 LSt, stillP bool, org lorigin) {
 			if stillP {
 				addOut(lout{panic: true, st: st2, origin: org})
 			} else {
@@ -461,7 +471,7 @@ func (a *LTA) analyze(fn *ssa.Function, args map[int]labs, st LSt, deferredPanic
 			case *ssa.RunDefers:
 				ii := i
 				frc := fr
-				runDefers(frc, st, false, "", len(frc.defers)-1, func(st2 LSt, stillP bool, org string) {
+				runDefers(frc, st, false, lorigin{}, len(frc.defers)-1, func(st2 LSt, stillP bool, org lorigin) {
 					if stillP {
 						addOut(lout{panic: true, st: st2, origin: org})
 						return
@@ -521,7 +531,7 @@ func (a *LTA) analyze(fn *ssa.Function, args map[int]labs, st LSt, deferredPanic
 					}
 				}
 			case *ssa.Panic:
-				doPanic(fr, st, self+":panic")
+				doPanic(fr, st, lorigin{self + ":panic", ins.Pos()})
 				break instrs
 			case *ssa.Return:
 				addOut(lout{st: st, rec: fr.recovered})
@@ -577,7 +587,7 @@ func (a *LTA) analyze(fn *ssa.Function, args map[int]labs, st LSt, deferredPanic
 						break instrs
 					}
 					// the receiver (or a middleware) may panic
-					doPanic(fr.clone(), st, self+":"+ev)
+					doPanic(fr.clone(), st, lorigin{self + ":" + ev, ins.Pos()})
 				case "unclassified-delivery":
 					report("unclassified-delivery", "call "+a.w.pathOf(com.Value), st, ins.Pos())
 					break instrs
@@ -603,7 +613,7 @@ func (a *LTA) analyze(fn *ssa.Function, args map[int]labs, st LSt, deferredPanic
 				case "cancel":
 					if fr.env[com.Value] == aNil {
 						report("nil-func-call", "call "+a.w.pathOf(com.Value), st, ins.Pos())
-						doPanic(fr.clone(), st, self+":nil-call")
+						doPanic(fr.clone(), st, lorigin{self + ":nil-call", ins.Pos()})
 						break instrs
 					}
 					a.evCancel(report, st, ins.Pos(), "call")
@@ -620,7 +630,7 @@ func (a *LTA) analyze(fn *ssa.Function, args map[int]labs, st LSt, deferredPanic
 						ii := i
 						for _, o := range sortedOuts(cs.outs) {
 							if o.panic {
-								doPanic(fr.clone(), o.st, canonStack(self, o.origin))
+								doPanic(fr.clone(), o.st, o.origin.via(self))
 							} else {
 								work = append(work, item{it.b, ii + 1, o.st, fr.clone()})
 							}
@@ -909,6 +919,10 @@ func (a *LTA) refine(fr *lframe, c ssa.Value, taken bool) {
 
 // export turns the engine's findings of the given kinds into obligations of rule.
 func (a *LTA) export(r *Report, rule string, kinds []string, what string) {
+	a.exportIf(r, rule, kinds, what, nil)
+}
+
+func (a *LTA) exportIf(r *Report, rule string, kinds []string, what string, keep func(lfinding) bool) {
 	if len(a.problems) > 0 {
 		r.Unknown(rule, "lta", what, "-", "typestate engine could not start: "+strings.Join(a.problems, "; "))
 		return
@@ -922,7 +936,7 @@ func (a *LTA) export(r *Report, rule string, kinds []string, what string) {
 		sort.Strings(ks)
 		for _, k := range ks {
 			f := a.findings[k]
-			if f.Kind != kind {
+			if f.Kind != kind || (keep != nil && !keep(f)) {
 				continue
 			}
 			n++
